@@ -500,10 +500,10 @@ def colseries_cases(rng, n):
 def gen(ctx):
     rng = ctx.rng
     cases = alias_cases()
-    for _ in range(ctx.n(420, 7000)):
+    for _ in range(ctx.n(1500, 9000)):
         dm = dm_case(rng)
         cases.append({"kind": "chain", "dm": dm, "chain": gen_chain(rng, dm, rng.randint(1, 6))})
-    cases += colseries_cases(rng, ctx.n(30, 300))
+    cases += colseries_cases(rng, ctx.n(60, 400))
     if ctx.thorough:
         cases += exhaustive_cases()
     return cases
@@ -795,7 +795,7 @@ def judge(case, obs, replies):
         st, form, ra, rc = requested(alts, crits, step)
         where = f"link {n} {step}"
         if "err" in o:
-            if st == "ok" and form in ("frame", "row", "same"):
+            if st == "ok" and form in ("frame", "row", "same") and not has_dup(ra, rc):
                 prop(f"{where}: a valid selection was refused with {o['err']}: {o.get('msg')}", {"alts": ra, "crits": rc}, o["err"])
             stopped = True
             break
